@@ -64,7 +64,7 @@ impl SmtString {
     /// Check whether this is a good string
     pub fn is_good(&self) -> bool {
         let n = self.s.len();
-        n < MAX_LENGTH as usize && good_string(&self.s)
+        n <= MAX_LENGTH as usize && good_string(&self.s)
     }
 
     /// Check whether all SMT chars are valid unicode
